@@ -28,6 +28,15 @@ ASSUMPTIONS = ["astropy WCS all_pix2world/all_world2pix semantics",
                "contracts table (aegean_sa/units.py)"]
 
 MUTANTS = [
+    ("pix2sky answers memoised in a mutable default argument",
+     "AegeanTools/wcs_helpers.py",
+     "    def pix2sky(self, pixel):\n",
+     "    def pix2sky(self, pixel, _memo={}):\n"
+     "        if tuple(pixel) in _memo:\n"
+     "            return _memo[tuple(pixel)]\n"
+     "        _memo[tuple(pixel)] = self.wcs.all_pix2world(\n"
+     "            [[pixel[1], pixel[0]]], 1,\n"
+     "            ra_dec_order=self.ra_dec_order)[0]\n", "C16-R9"),
     ("origin 0 in sky2pix", "AegeanTools/wcs_helpers.py",
      "pixel = self.wcs.all_world2pix(\n            [pos], 1, "
      "ra_dec_order=self.ra_dec_order)\n        # wcs and python have "
@@ -143,6 +152,7 @@ def run(ctx):
     r5_deps(ctx, ci)
     r7_defect(ctx, prog, ci)
     r8_quadrant(ctx, prog)
+    r9_stateless(ctx, prog)
     from .. import precision
     precision.rule(
         ctx, prog, "C16-R6",
@@ -333,3 +343,24 @@ def r8_quadrant(ctx, prog):
                           "quadrant of (dx, dy) is lost" % norm(c, 60),
                           node=c)
     ctx.floor("C16-R8", n, 5, "arctangent calls in the geometry modules")
+
+
+def r9_stateless(ctx, prog):
+    from ..core import shared_state
+    ctx.rule("C16-R9", "the conversions are functions of the helper's own "
+             "WCS and their arguments: no method of WCSHelper (and no "
+             "function of wcs_helpers / angle_tools) memoises results or "
+             "keeps them in a container shared between instances or calls")
+    n = 0
+    for q, fi in sorted(prog.functions.items()):
+        if not (fi.module.endswith("wcs_helpers") or
+                fi.module.endswith("angle_tools")):
+            continue
+        n += 1
+        st = shared_state(prog, fi)
+        ctx.check("C16-R9", fi, "%s keeps no shared state" % fi.short,
+                  not st, "%s: an answer computed for one image (one WCS) is "
+                  "handed out again for the same pixel / position of "
+                  "another image" % "; ".join(d for _, d in st[:3]),
+                  node=st[0][0] if st else fi.node)
+    ctx.floor("C16-R9", n, 20, "functions of the conversion modules")
